@@ -299,15 +299,21 @@ def expected(B, sort, q):
 def check_case(case, res):
     if "crash" in res:
         return (-1, "building the mesh crashed: " + res["crash"])
-    if res["faces"] != [list(F) for F in case["faces"]]:
-        return (-1, "the mesh does not store the face list it was given")
+    # the finished object (whatever route built it) is inspected through ITS face list
+    given = [list(F) for F in case["faces"]]
+    same_routes = ("list", "tuple", "numpy", "from_arrays", "obj", "geogram", "rewrap", "copy", "copy_conn")
+    if res.get("route", "list") in same_routes and res["faces"] != given:
+        return (-1, "the mesh built through route %s does not store the face list it was given" % res.get("route"))
+    case = dict(case, nv=res.get("nv", case["nv"]), faces=res["faces"], script=res.get("script", case.get("script")))
     B = Brute(case["nv"], case["faces"], res["edges"])
     m = wf_edges(B)
     if m:
         return (-1, m)
     if res["corner_elem"] != [v for F in case["faces"] for v in F] or \
             res["corner_adj"] != [f for f, F in enumerate(case["faces"]) for _ in F]:
-        return (-1, "face_corners is not the concatenation of the faces")
+        q0 = (" (first query %s answered %s)" % (case["script"][0], res["obs"][0])) if case.get("script") and res.get("obs") else ""
+        return (-1, "face_corners is not the concatenation of the faces: the mesh has %d face corners, its face list has %d%s"
+                % (len(res["corner_elem"]), sum(len(F) for F in case["faces"]), q0))
     for k, (q, o) in enumerate(zip(case["script"], res["obs"])):
         mode, want = expected(B, case["sort"], q)
         if mode == "exact":
